@@ -446,6 +446,33 @@ static Plan gen_plan(uint64_t seed, const std::string& profile_name, uint64_t ru
       }
       if (!p.racy && s.op == OP_SELECT) s.h = h;
       p.steps.push_back(s);
+      if (s.op == OP_EVAL_SUP && !p.racy && r.bern(p.profile == "C12" || p.profile == "C10" ? 0.3 : 0.12)) {
+        // "ask the twin the same question right away": another handle of the same solution in the same registry gets
+        // the very same call next (two instances, same point, possibly the same values, one right after the other)
+        for (int c2 = 0; c2 < nclients; ++c2) {
+          if (c2 == c || p.clients[(size_t)c2].prec != cl.prec) continue;
+          int h2 = -1;
+          for (size_t j = 0; j < sols[(size_t)c2].size(); ++j)
+            if (inited[(size_t)c2][j] && sols[(size_t)c2][j] == sols[(size_t)c][(size_t)h]) h2 = (int)j;
+          if (h2 < 0) continue;
+          Step sel;
+          sel.op = OP_SELECT;
+          sel.client = c2;
+          sel.h = h2;
+          p.steps.push_back(sel);
+          Step e2 = s;
+          e2.client = c2;
+          e2.h = h2;
+          e2.nested.clear();
+          p.steps.push_back(e2);
+          Step back;  // the burst of client c goes on with its own handle
+          back.op = OP_SELECT;
+          back.client = c;
+          back.h = h;
+          p.steps.push_back(back);
+          break;
+        }
+      }
     }
   }
   g_hint_sols = nullptr;
